@@ -25,7 +25,8 @@ THEOREMS = [
     "file_order", "file_order_any_sort", "init_calls_order", "import_order",
     "read_link_iff", "linkname_parse", "splitExt_spec", "linkname_split", "linkname_split_plain", "linkname_dotted_package",
     "ismethod_value", "ismethod_pointer", "ismethod_func",
-    "linkname_resolves", "old_scheme_exported_counterexample", "old_scheme_dotted_counterexample",
+    "linkname_resolves", "linkset_add_no_conflict", "program_linkset_no_conflict", "linkset_conflict_first_wins",
+    "old_scheme_exported_counterexample", "old_scheme_dotted_counterexample",
 ]
 ENV_THEOREMS = ["runtime_closure_nonblocking", "runtime_closure_has_runtime"]
 
@@ -694,6 +695,29 @@ def finding_dotted(chk, scratch):
                 kind=lambda o, a: "linkname-call:dotted-package")
 
 
+def conflict_tie(chk, scratch):
+    """`GoLinknameSet.Add` with two directives for one reference (gc rejects the duplicate; here the error is discarded by
+    WriteProgramCode): the model says the first directive stays in force and the later directives of the package are not
+    recorded. Tie only (model vs code), not a clause of the property."""
+    gopath = os.path.join(scratch, "gopath")
+    mod = "gvq%dcfl" % chk.seed
+    files = {
+        "main.go": ("package main\n\nimport (\n\t_ \"%s/lib\"\n\t_ \"unsafe\"\n)\n\n//go:linkname f %s/lib.impl1\n//go:linkname f %s/lib.impl2\nfunc f(x int) int\n\n"
+                    "//go:linkname g %s/lib.impl3\nfunc g(x int) int\n\nfunc main() {\n\tprintln(\"L\", \"f\", f(1))\n\tdefer func() {\n\t\tif recover() != nil {\n"
+                    "\t\t\tprintln(\"L\", \"g\", 0)\n\t\t}\n\t}()\n\tprintln(\"L\", \"g\", g(1))\n}\n") % (mod, mod, mod, mod),
+        "lib/lib.go": "package lib\n\nfunc impl1(x int) int { return 1000 + x }\n\nfunc impl2(x int) int { return 2000 + x }\n\nfunc impl3(x int) int { return 3000 + x }\n",
+    }
+    r = run_prog_jobs([{"id": "conflict", "mod": mod, "files": files, "variants": ["plain"], "native": False, "timeout": 300}], gopath, par=1)[0]
+    js = progs.observe_js(r["runs"]["plain"])
+    names = {"1001": "impl1", "2001": "impl2", "3001": "impl3", "0": "unresolved"}
+    got = {l.split(" ")[1]: names.get(l.split(" ")[2], l.split(" ")[2]) for l in js[0] if l.startswith("L ")}
+    impl = "f=%s g=%s" % (got.get("f", js[1][:80]), got.get("g", js[1][:80]))
+    model = C.run_driver("C10", ["ln conflict"])[0]
+    chk.add_case("linkset-conflict", "ln conflict", kindkey="linkset:conflict", sample={"tie": "linkset-conflict", "op": "ln conflict", "impl": impl, "model": model})
+    if impl != model:
+        chk.add_tie_break("linkset-conflict", json.dumps({"op": "ln conflict", "files": files}), impl, model)
+
+
 def runtime_closure_facts(chk, scratch):
     """Regenerated fact behind the hypothesis `hsync` of init_once_after_imports: compile a program with the real compiler,
     take the import lists of the linked archives, let the MODEL compute the dependency closure of `runtime`, and record for
@@ -831,13 +855,14 @@ def run(tier, seed):
         build_error_tie(chk, scratch)
         finding_exported(chk, scratch)
         finding_dotted(chk, scratch)
+        conflict_tie(chk, scratch)
         C.log("[C10] build errors / witness done %.0fs" % (time.time() - chk.t0))
         # (a)+(c) programs
-        nprog = 100 if tier == "thorough" else 10
+        nprog = 60 if tier == "thorough" else 10
         total = program_tie(chk, tier, scratch, nprog)
         if chk.tie_breaks or [m for m in chk.mismatches if not chk.known_match(m.get("signature"))]:
             # a tie broke: search harder for an input on which the property itself fails
-            total += program_tie(chk, tier, scratch, 120, targeted=True)
+            total += program_tie(chk, tier, scratch, 60, targeted=True)
         if tier == "thorough":
             # exhaustive sub-space: every import DAG on up to 4 packages (3 libraries + main)
             dags = [(n, e) for n in (2, 3, 4) for e in all_dags(n)]
